@@ -8,7 +8,7 @@ from ..common.outcome import Outcome, require
 ID = "C06"
 RULE = (
     "identifier x length 1..64 x two vectors from the identifier's C06 domain (DESIGN.md section 5; independent / one-coordinate / "
-    "proportional / identical / 1-ulp pairs), resolved through DISTANCES[name] or Model(distance=name).distance_fn for the four model "
+    "proportional / identical / 1-ulp pairs; a tenth of the cases use integer-typed arrays with integral values), resolved through DISTANCES[name] or Model(distance=name).distance_fn for the four model "
     "classes; oracle = closed form in 60-digit decimal arithmetic with tolerance 1e-9*|ref| + 64*eps*(n+8)*A. Plus acceptance cases: "
     "candidate strings (table names, registry keys, near-misses, random text) must be accepted by all four constructors iff they are in the registry, "
     "and the registry must equal the 47 table names. non-trivial: n != 4 (the only length the suite uses), x != y, reference != 0; "
@@ -52,10 +52,35 @@ def strategy(tier, shard=0, nshards=1):
         path = draw(st.sampled_from(PATHS + ["registry"]))
         return {"t": "value", "name": name, "x": x, "y": y, "kind": kind, "path": path}
 
+    @st.composite
+    def int_case(draw):
+        """integer-typed arrays (counts, pixel values): x is int64, y int64 or float64"""
+        name = names[draw(st.integers(0, 10**6)) % len(names)]
+        dom = M.c06_domain(name)
+        n = draw(st.integers(1, 12))
+        if dom in ("R", "RNZ"):
+            e = st.integers(-20, 20)
+        elif dom == "P":
+            e = st.integers(1, 50)
+        else:
+            e = st.integers(0, 50)
+        x = draw(st.lists(e, min_size=n, max_size=n))
+        y = draw(st.lists(e, min_size=n, max_size=n))
+        if dom == "RNZ":
+            x[0] = x[0] or 1
+            y[0] = y[0] or 2
+        if dom == "PROB":
+            return None
+        yk = draw(st.sampled_from(["int64", "float64"]))
+        if yk == "float64":
+            y = [v + draw(st.sampled_from([0.0, 0.5, 0.25])) for v in y]
+        return {"t": "value", "name": name, "x": [float(v) for v in x], "y": [float(v) for v in y], "kind": "int_typed", "path": "registry", "xdtype": "int64", "ydtype": yk}
+
     near = st.sampled_from(M.NAMES).flatmap(lambda n: st.sampled_from([n + "_distance", n.upper(), n[:-1], n + " ", "_" + n, n.replace("_", "-"), n.title()]))
     cand = st.one_of(st.sampled_from(M.NAMES), near, st.text(max_size=12), st.sampled_from(["", "euclid", "l2", "minkowski", "mahalanobis", "DISTANCES"]))
     accept_case = cand.map(lambda c: {"t": "accept", "cand": c})
-    return st.one_of(metric_case(), metric_case(), metric_case(), metric_case(), metric_case(), metric_case(), metric_case(), metric_case(), metric_case(), accept_case)
+    ints = int_case().filter(lambda c: c is not None)
+    return st.one_of(metric_case(), metric_case(), metric_case(), metric_case(), metric_case(), metric_case(), metric_case(), metric_case(), ints, accept_case)
 
 
 def check_case(case):
@@ -82,7 +107,7 @@ def check_case(case):
     else:
         model = lib.libcall(_models()[path], name)
         fn = model.distance_fn
-    xa, ya = np.array(x, dtype=float), np.array(y, dtype=float)
+    xa, ya = np.array(x, dtype=np.dtype(case.get("xdtype", "float64"))), np.array(y, dtype=np.dtype(case.get("ydtype", "float64")))
     val = lib.libcall(fn, xa, ya)
     ok, msg = M.compare(name, val, x, y)
     require(ok, "closed_form:" + name, lambda: "%s via %s, n=%d, x=%r y=%r" % (msg, path, len(x), x[:6], y[:6]))
